@@ -10,6 +10,8 @@ def parseOp (s : String) : Option SOp :=
   | ["sql", x] => x.toNat?.map (fun n => SOp.rawSql (.add n))
   | ["flush"] => some .flush
   | ["commit"] => some .commit
+  | ["txncommit"] => some .txnCommit
+  | ["beginblock"] => some .beginBlock
   | ["query"] => some .query
   | ["rollback"] => some .rollback
   | ["close"] => some .close
